@@ -430,6 +430,57 @@ impl<'ast> Visit<'ast> for PanicSites {
   }
 }
 
+/// every `impl LintRule for T` of src/ outside test modules with the number of fields of `struct T` (found in the same
+/// file; `?` when it is not a struct defined there), and every `Regex::new(<literal>)` with the static / function it
+/// initialises
+struct RuleStructs {
+  file: String,
+  structs: std::collections::BTreeMap<String, usize>,
+  impls: Vec<String>,
+  rows: Vec<(String, String, String)>,
+  site: Vec<String>,
+  regexes: Vec<(String, String, String)>,
+}
+impl<'ast> Visit<'ast> for RuleStructs {
+  fn visit_item_mod(&mut self, n: &'ast syn::ItemMod) {
+    if is_cfg_test(&n.attrs) {
+      return;
+    }
+    syn::visit::visit_item_mod(self, n);
+  }
+  fn visit_item_struct(&mut self, n: &'ast syn::ItemStruct) {
+    self.structs.insert(n.ident.to_string(), n.fields.len());
+    syn::visit::visit_item_struct(self, n);
+  }
+  fn visit_item_impl(&mut self, n: &'ast syn::ItemImpl) {
+    use syn::__private::ToTokens;
+    if let Some((_, path, _)) = &n.trait_ {
+      if path.segments.last().map(|s| s.ident == "LintRule").unwrap_or(false) {
+        self.impls.push(n.self_ty.to_token_stream().to_string().split_whitespace().collect());
+      }
+    }
+    syn::visit::visit_item_impl(self, n);
+  }
+  fn visit_item_static(&mut self, n: &'ast syn::ItemStatic) {
+    self.site.push(n.ident.to_string());
+    syn::visit::visit_item_static(self, n);
+    self.site.pop();
+  }
+  fn visit_expr_call(&mut self, n: &'ast syn::ExprCall) {
+    use syn::__private::ToTokens;
+    let f: String = n.func.to_token_stream().to_string().split_whitespace().collect();
+    if f.ends_with("Regex::new") {
+      let lit = match n.args.first() {
+        Some(syn::Expr::Lit(syn::ExprLit { lit: syn::Lit::Str(s), .. })) => s.value(),
+        Some(other) => format!("<not a literal: {}>", other.to_token_stream()),
+        None => "<no argument>".to_string(),
+      };
+      self.regexes.push((self.file.clone(), self.site.last().cloned().unwrap_or_default(), lit));
+    }
+    syn::visit::visit_expr_call(self, n);
+  }
+}
+
 fn write_if_changed(path: &str, content: &str) {
   if std::fs::read_to_string(path).ok().as_deref() != Some(content) {
     std::fs::write(path, content).unwrap();
@@ -445,6 +496,7 @@ fn main() {
   let mut ctx_rows: Vec<(String, Vec<String>)> = vec![];
   let mut statics = Statics { file: String::new(), rows: vec![] };
   let mut psites = PanicSites { file: String::new(), cur_fn: vec![], rows: Default::default() };
+  let mut rstructs = RuleStructs { file: String::new(), structs: Default::default(), impls: vec![], rows: vec![], site: vec![], regexes: vec![] };
   let mut entry = Entry { cur: None, calls: vec![], inner_args: vec![] };
   let mut cells = Cells { file: String::new(), site: vec![], rows: vec![] };
   for p in &files {
@@ -461,6 +513,14 @@ fn main() {
     if !v.file.ends_with("test_util.rs") {
       psites.file = v.file.clone();
       psites.visit_file(&f);
+    }
+    if !v.file.ends_with("test_util.rs") {
+      rstructs.file = v.file.clone();
+      rstructs.structs.clear();
+      rstructs.impls.clear();
+      rstructs.visit_file(&f);
+      let rows: Vec<(String, String, String)> = rstructs.impls.iter().map(|t| (v.file.clone(), t.clone(), rstructs.structs.get(t).map(|n| n.to_string()).unwrap_or_else(|| "?".into()))).collect();
+      rstructs.rows.extend(rows);
     }
     cells.file = v.file.clone();
     cells.visit_file(&f);
@@ -507,6 +567,16 @@ fn main() {
     t.push_str(&rows.join(",\n"));
     t.push_str("\n]\n\nend DL.Gen\n");
     write_if_changed(&format!("{}/PanicSites.lean", out), &t);
+  }
+  {
+    let mut t = String::from("/-! GENERATED by harness/src/bin/translate2.rs (syn): every `impl LintRule for T` of src/ with the number of fields of\n`struct T`, and every `Regex::new(<literal>)` with the static it initialises. -/\nnamespace DL.Gen\n\ndef ruleStructs : List (String × String × String) := [\n");
+    let rows: Vec<String> = rstructs.rows.iter().map(|(a, b, c)| format!("  ({}, {}, {})", lean_str(a), lean_str(b), lean_str(c))).collect();
+    t.push_str(&rows.join(",\n"));
+    t.push_str("\n]\n\ndef regexLiterals : List (String × String × String) := [\n");
+    let rows: Vec<String> = rstructs.regexes.iter().map(|(a, b, c)| format!("  ({}, {}, {})", lean_str(a), lean_str(b), lean_str(c))).collect();
+    t.push_str(&rows.join(",\n"));
+    t.push_str("\n]\n\nend DL.Gen\n");
+    write_if_changed(&format!("{}/RuleStructs.lean", out), &t);
   }
   let mut s = String::from("/-! GENERATED by harness/src/bin/translate2.rs (syn): every `visit_*` override of every `impl Visit for` in src/, with\nwhether each path through it recurses into the node's children (`always`), some traversal call exists (`sometimes`), or none (`never`). -/\nnamespace DL.Gen\n\n/-- (file, visitor type, method, class) for the overrides that do **not** always recurse -/\ndef visitNotAlways : List (String × String × String × String) := [\n");
   let rows: Vec<String> = v.rows.iter().filter(|r| r.3 != "always").map(|(a, b, c, d)| format!("  ({}, {}, {}, {})", lean_str(a), lean_str(b), lean_str(c), lean_str(d))).collect();
